@@ -169,7 +169,7 @@ def _verus_prop(prop, tier, seed, unit_filters, meta_extra, extra_obs=None):
 
 
 def c02(tier, seed):
-    return _verus_prop("C02", tier, seed, [("layout", None, None), ("prim_types", None, None), ("packed", None, None), ("repr", None, None), ("clang_layout", None, None), ("union_repr", None, None)], {
+    return _verus_prop("C02", tier, seed, [("layout", None, None), ("prim_types", None, None), ("packed", None, None), ("repr", None, None), ("clang_layout", None, None), ("union_repr", None, None), ("builtin_ty", None, None)], {
         "trusted_base": LAYOUT_TRUST,
         "functions_under_contract": LAYOUT_FNS + [
             "bindgen/codegen/helpers.rs: ast_ty::int_kind_rust_type, ast_ty::float_kind_rust_type (unit prim_types: fixed-width kinds get a Rust integer of the same width and sign; platform kinds the std::os::raw alias documented as equivalent; wchar_t / long double / __float128 a type of exactly the C size)",
@@ -177,6 +177,7 @@ def c02(tier, seed):
             "bindgen/codegen/mod.rs: the tail of CompInfo::codegen that completes size and alignment (unit layout, statements extracted by rule R18 and verified against the contracts of pad_struct / requires_explicit_align / blob): an opaque record is one blob of exactly the C size/alignment with repr(align); a struct gets the padding of the size theorem appended in place and repr(align(N)) (packed for N == 1) whenever its fields under-align; a non-Rust union is one blob of exactly the C size/alignment; and the realisation of the explicit alignment (repr(align(N)), or a leading zero-length array of a primitive whose alignment is exactly N for bit-field records with N <= 8)",
             "bindgen/clang.rs: Cursor::offset_of_field, Type::{clang_size_of, clang_align_of, size, align, fallible_size, fallible_align, fallible_layout} (unit clang_layout: the numbers handed to the IR are libclang's 64-bit values, unchanged, for every non-negative value; negative codes are errors; the two documented work-arounds)",
             "bindgen/codegen/mod.rs: utils::type_from_named (unit prim_types: the <stdint.h>/<stddef.h> typedef names map to the Rust primitive of the same width and signedness)",
+            "bindgen/ir/context.rs: the kind-mapping statement of BindgenContext::build_builtin_ty (unit builtin_ty, let-statement R18): every libclang builtin type kind gets the bindgen kind of the same C type; complex only over floating types (found and repaired F12)",
             "bindgen/ir/comp.rs: CompInfo::is_rust_union and bindgen/codegen/mod.rs: wrap_union_field_if_needed (unit union_repr): a Rust `union` only for defined unions with --untagged-union whose members are all Copy or may be ManuallyDrop-wrapped; in it every member keeps the size/alignment of its C type; otherwise members are zero-sized markers over the blob of the tail statement",
             "bindgen/ir/comp.rs: CompInfo::already_packed (unit packed: Some(true) exactly when dropping `packed` moves no field), CompInfo::is_packed (attribute, or a member more aligned than the record, or a vtable in a 1-aligned record)"],
         "assumptions": [
@@ -193,7 +194,7 @@ def c02(tier, seed):
 
 
 def c10(tier, seed):
-    return _verus_prop("C10", tier, seed, [("layout", r"::(blob|Layout::known_type_for_size|Layout::for_size_internal|Layout::for_size|integer_type|bitfield_unit|Layout::new|align_to|comp_tail_layout)::", None), ("opaque", None, None), ("vouch", None, None), ("prim_types", r"::(BindgenContext::is_stdint_type|type_from_named)::", None),
+    return _verus_prop("C10", tier, seed, [("layout", r"::(blob|Layout::known_type_for_size|Layout::for_size_internal|Layout::for_size|integer_type|bitfield_unit|Layout::new|align_to|comp_tail_layout)::", None), ("opaque", None, None), ("vouch", None, None), ("lattice_constrain", r"::HasVtableAnalysis::", None), ("prim_types", r"::(BindgenContext::is_stdint_type|type_from_named)::", None),
                                            ("constrain", r"::CannotDerive::constrain_type::", None), ("blocklist", None, None), ("repr", None, None)], {
         "trusted_base": LAYOUT_TRUST,
         "functions_under_contract": ["bindgen/codegen/helpers.rs: blob, integer_type, bitfield_unit", "bindgen/ir/layout.rs: Layout::{known_type_for_size, new, for_size_internal, for_size}",
@@ -201,6 +202,7 @@ def c10(tier, seed):
                                      "bindgen/ir/item.rs: Item::is_blocklisted; <Item as IsOpaque>::is_opaque, <Type as IsOpaque>::is_opaque (unit opaque: opaque exactly by annotation, by an --opaque-type name match, or through the type: Opaque kind, opaque instantiation / compound / referenced type)",
                                      "bindgen/codegen/mod.rs: the tail of CompInfo::codegen (unit layout, statement R18): an opaque record with a known layout gets exactly one field, a blob of exactly the C size and alignment, and repr(align)",
                                      "bindgen/codegen/mod.rs: the `packed` decision of CompInfo::codegen (an opaque blob never carries `packed` next to its repr(align))",
+                                     "bindgen/ir/analysis/has_vtable.rs: HasVtableAnalysis::{insert, forward, constrain} (unit lattice_constrain, as under C07): whether a type gets a vtable pointer is decided by the documented rule for EVERY type, opaque or not - a class deriving from an opaque polymorphic base must not get a second vtable pointer ('types that contain it keep their correct layout')",
                                      "bindgen/ir/context.rs: the two nested closures of BindgenContext::blocklisted_type_implements_trait (unit vouch, R18): a trait is derivable through a blocklisted type only when somebody vouched - bindgen itself for the <stdint.h> names when no callback is registered, otherwise the user's callback; no name or no answer means No",
                                      "bindgen/ir/context.rs: BindgenContext::is_stdint_type and bindgen/codegen/mod.rs: utils::type_from_named (unit prim_types): the names bindgen vouches for itself are exactly the <stdint.h>/<stddef.h> names it maps to a primitive whether or not they are blocklisted",
                                      "bindgen/ir/analysis/derive.rs: CannotDerive::constrain_type (first rule: an item outside the allowlisted set gets exactly what blocklisted_type_implements_trait says, before any other rule)"],
@@ -225,11 +227,12 @@ def _from_str_witnesses():
 def c12(tier, seed):
     units = [("gen_errors", None, None), ("layout", None, r"^(safety|decreases.*)$"), ("bf_alloc", None, r"^(safety|decreases.*)$"), ("macro_type", None, r"^safety$"),
              ("edges", None, r"^safety$"), ("derive_gate", None, r"^safety$"), ("derives", None, r"^safety$"), ("fn_abi", None, r"^(safety|post#3)$"), ("constrain", None, r"^safety$"), ("prim_types", None, r"^safety$"), ("packed", None, r"^(safety|decreases.*)$"), ("blocklist", None, r"^safety$"), ("has_float", None, r"^safety$"), ("has_tp_array", None, r"^safety$"), ("has_destructor", None, r"^safety$"), ("lattice_insert", None, r"^safety$"),
-             ("lattice_constrain", r"::constrain::", r"^safety$"), ("link_name", r"::names_will_be_identical_after_mangling::", r"^safety$"), ("eval_int", None, r"^safety$"), ("bf_unit_start", None, r"^safety$"), ("resolver", None, None), ("char_macro", None, r"^safety$"), ("clang_layout", None, r"^safety$"), ("traversal", None, r"^safety$"), ("trace_impls", None, r"^safety$")]
+             ("lattice_constrain", r"::constrain::", r"^safety$"), ("link_name", r"::names_will_be_identical_after_mangling::", r"^safety$"), ("eval_int", None, r"^safety$"), ("bf_unit_start", None, r"^safety$"), ("resolver", None, None), ("builtin_ty", None, r"^safety$"), ("char_macro", None, r"^safety$"), ("clang_layout", None, r"^safety$"), ("traversal", None, r"^safety$"), ("trace_impls", None, r"^safety$")]
     return _verus_prop("C12", tier, seed, units, {
         "trusted_base": LAYOUT_TRUST + ["alloc::fmt::format stubbed in the from_str witness harnesses (message text irrelevant)"],
         "functions_under_contract": ["bindgen/lib.rs: the input-path checks of Bindings::generate (missing -> NotExist, directory -> FolderAsHeader, unreadable -> InsufficientPermissions; file system uninterpreted) and the per-diagnostic step of parse() (severity Error or Fatal -> ClangDiagnostic error) -- blocks extracted by rule R18, unit gen_errors"] + LAYOUT_FNS + ["bindgen/ir/comp.rs: bitfields_to_allocation_units (no-clang-offset mode)", "and the functions of units macro_type, edges, derive_gate, derives, fn_abi (see C05, C07-C09, C14)",
                                      "bindgen/ir/context.rs: ItemResolver::resolve (unit resolver): the reference/alias-following loop TERMINATES on every finite IR, cyclic or not (decreases: items not yet seen), never indexes outside the item table, and returns an item of the table",
+                                     "bindgen/ir/context.rs: the kind-mapping statement of build_builtin_ty does not panic on any builtin kind (found and repaired F12: `_Complex int`)",
                                      "bindgen/ir/function.rs: FunctionSig::abi never accepts an ABI that cannot be printed (ClangAbi::Unknown -> UnsupportedAbi; found and repaired F11: Function::codegen and <ClangAbi as ToTokens> panicked on it); bindgen/ir/var.rs: the character-literal arm of Var::parse (found and repaired F10)",
                                      "bindgen/codegen/mod.rs: utils::names_will_be_identical_after_mangling (every slice index / range in bounds, for all name lengths); bindgen/ir/analysis/{has_vtable,sizedness}.rs: constrain (the two unreachable!() arms of SizednessAnalysis::constrain are unreachable given 'TypeKind::Opaque types are opaque' and 'no UnresolvedTypeRef after parsing'); clang::EvalResult::as_int; the bit-field unit-start closure (no underflow given offset_into_unit <= offset)"],
         "assumptions": [
@@ -254,13 +257,14 @@ def c04(tier, seed):
         "functions_under_contract": ["bindgen/ir/function.rs: get_abi (Kani in-crate), FunctionSig::abi, FunctionSig::is_variadic (Verus unit fn_abi)",
                                      "bindgen/codegen/mod.rs: utils::fnsig_argument_type, utils::fnsig_return_ty_internal (Verus unit fnsig); the Pointer/Reference arm of <Type as TryToRustTy>::try_to_rust_ty (Verus unit ptr_lowering, block extracted by rule R18)",
                                      "bindgen/codegen/mod.rs: the receiver and constructor statements of Method::codegen_method (Verus unit method_wrapper, statements R18): the C++ `this` argument becomes `&self` (const method) or `&mut self`; static methods and constructors get no receiver; a constructor drops `this` and returns Self",
+                                     "bindgen/codegen/mod.rs: the `let symbol = ..` statement of <Var as CodeGenerator>::codegen (Verus unit link_name, let-statement R18, verified against the contract of names_will_be_identical_after_mangling): an overridden link name is always spelled out with #[link_name] (found and repaired F13), otherwise the compiler's symbol is named unless it is the Rust name or its platform decoration",
                                      "bindgen/codegen/mod.rs: utils::names_will_be_identical_after_mangling (Verus unit link_name, all name lengths; std str/slice operations replaced by Seq-specified env functions, rule R21)"],
         "assumptions": ["get_abi: every u32 CXCallingConv value (loop-free, full domain)",
                         "FunctionSig::abi: the ABI emitted is the --override-abi match if any, else what clang reported, or an error; never something else",
                         "pointer lowering: wrong-sized pointer types are an error; a pointer to (a typedef of) a function type or to an ObjC interface adds no pointer level; C++ references become NonNull when asked; every other pointee gets *const/*mut by the pointee's constness",
                         "link_name omission: #[link_name] is omitted exactly when the compiler's symbol is the Rust name itself or its platform decoration for the calling convention (`_name`; `_name@N` stdcall; `@name@N` fastcall), the decoration table transcribed from the Microsoft decorated-names / Mach-O conventions; slice indexing in the function never goes out of bounds",
                         "argument lowering: array parameters decay to a pointer to the element (const iff element or array is const), ObjC interface pointers are named, everything else keeps its type; return lowering: noreturn -> !, void (through typedefs) -> (), else the type. The type tokens themselves (to_rust_ty_or_opaque) are uninterpreted",],
-        "unverified": ["cursor_mangling / mangled names from libclang; the call sites of names_will_be_identical_after_mangling (Function::codegen, Var::codegen) and whether rustc decorates as the table says; the other arms of try_to_rust_ty; fnsig_arguments_iter naming; the rest of Method::codegen_method (MaybeUninit protocol, name de-duplication); merge_extern_blocks (seed S06 missed); ABI classification by rustc/LLVM vs clang"],
+        "unverified": ["cursor_mangling / mangled names from libclang; the call site of names_will_be_identical_after_mangling in Function::codegen (seed S34 missed: statement order) and whether rustc decorates as the table says; the other arms of try_to_rust_ty; fnsig_arguments_iter naming; the rest of Method::codegen_method (MaybeUninit protocol, name de-duplication); merge_extern_blocks (seed S06 missed); ABI classification by rustc/LLVM vs clang"],
     }, extra_obs=extra)
 
 
@@ -300,7 +304,7 @@ def c07(tier, seed):
         o1, c1 = units_incrate.run_spec(units_incrate.lattice_spec() + units_incrate.subscriptions_spec())
         return o1, c1
     return _verus_prop("C07", tier, seed, [("edges", r"consider_edge", None), ("has_float", None, None), ("has_tp_array", None, None),
-                                           ("has_destructor", None, None), ("lattice_insert", None, None), ("analyze", None, None), ("lattice_constrain", r"::constrain::", None), ("constrain", r"::CannotDerive::(constrain|insert)::", None), ("trace_impls", None, None), ("deps", None, None)], {
+                                           ("has_destructor", None, None), ("lattice_insert", None, None), ("analyze", None, None), ("lattice_constrain", r"::constrain::", None), ("constrain", r"::CannotDerive::(constrain|insert)::", None), ("trace_impls", None, None), ("deps", None, None), ("template_params", None, None)], {
         "trusted_base": INCRATE_TRUST + ["read-sets of each analysis' constrain (contracts/edges.py, hand-derived from the constrain bodies and the Trace impls)",
                                         "declared lattice orders taken from the enums' doc comments"],
         "functions_under_contract": ["bindgen/ir/derive.rs: CanDerive::join, BitOr, BitOrAssign", "bindgen/ir/analysis/has_vtable.rs: HasVtableResult::join(+ops), HasVtableAnalysis::consider_edge",
@@ -310,12 +314,13 @@ def c07(tier, seed):
                                      "bindgen/ir/analysis/{has_float,has_type_param_in_array,has_destructor}.rs: insert and MonotoneFramework::constrain (units has_float, has_tp_array, has_destructor: inflationary, Changed <=> the fact set changed, fix-point equation of the rule; 'any base/field/argument has the fact' iterator chains = uninterpreted functions of the fact set)",
                                      "bindgen/ir/analysis/{has_vtable,sizedness}.rs: MonotoneFramework::constrain of HasVtableAnalysis and SizednessAnalysis (unit lattice_constrain: only the node moves, to the join of its old fact and the documented rule applied to the current facts of its neighbours; Changed <=> it moved; insert/forward used through their contracts; the unreachable!() arms proved unreachable under the stated IR invariants)",
                                      "bindgen/ir/{ty,comp,template,function,item}.rs: the Trace impls of Type, CompInfo, CompFields, Field, TemplateInstantiation, FunctionSig and Item (unit trace_impls, generic in the tracer): the exact sequence of (target, EdgeKind) each reports - inner types as TypeReference, bases as BaseMember, template definition / arguments as TemplateDeclaration / TemplateArgument, parameters as FunctionParameter, ...; nothing for stdint-named types, no bases/fields for opaque compounds - i.e. the table the subscription check (unit edges) is stated against",
+                                     "bindgen/ir/analysis/template_params.rs: UsedTemplateParameters::constrain_instantiation (unit template_params): the instantiation rule adds exactly what the arguments use for the parameters the definition uses, whatever is already known (monotone: no state-keyed shortcut)",
                                      "bindgen/ir/analysis/mod.rs: the edge-recording callback of generate_dependencies (unit deps, closure R18): an edge item -> sub_item is recorded reversed exactly when sub_item is allowlisted and the analysis' consider_edge accepts its kind; bindgen/ir/analysis/template_params.rs: the edge-recording callback of UsedTemplateParameters::new records EVERY traced edge (its consider_edge rejects TemplateDeclaration, which constrain_instantiation reads through)",
                                      "bindgen/ir/analysis/mod.rs: analyze::<A> -- the generic worklist driver, for EVERY analysis A satisfying the MonotoneFramework obligations (unit analyze: at return every node of the initial worklist is stable, i.e. re-applying its rule changes nothing; `while let` desugared by its definition (R19), the each_depending_on callback = append of the dependents (R16); termination not proved)",
                                      "bindgen/ir/analysis/{has_vtable,sizedness,derive}.rs: insert (+forward) of the lattice-valued analyses (unit lattice_insert: the key moves only up, to the join; Changed <=> it moved; Entry API desugared by rule R17)"],
         "assumptions": ["necessary conditions of the least-fixed-point property: (i) joins are least upper bounds of the declared orders, (ii) every edge kind a rule reads along is in the analysis' subscription predicate, (iii) every table update is inflationary and reports Changed exactly when the table changed, (iv) the three set-valued rules compute the fact of a node from the current facts of its neighbours (fix-point equation)",
                         "(v) the driver: assuming of an analysis that constrain(n) leaves n stable, that Same changes nothing and that Changed can de-stabilise only nodes each_depending_on(n) reports (env/analyze_env.rs), analyze returns a state in which every node of the initial worklist is stable",
-                        "CannotDerive::constrain IS under contract (unit constrain: node_rule = per-type rule + large-alignment conservatism, member join uninterpreted); UsedTemplateParameters::constrain is NOT; CannotDerive does not satisfy the driver's assumption for NON-allowlisted sub-items (it has no dependency edges for them and relies on the seed order of its initial_worklist instead: seed S24 missed)"],
+                        "CannotDerive::constrain IS under contract (unit constrain: node_rule = per-type rule + large-alignment conservatism, member join uninterpreted); of UsedTemplateParameters only constrain_instantiation and the dependency recording are (constrain, constrain_join, constrain_instantiation_of_blocklisted_template are NOT); CannotDerive does not satisfy the driver's assumption for NON-allowlisted sub-items (it has no dependency edges for them and relies on the seed order of its initial_worklist instead: seed S24 missed)"],
         "unverified": ["constrain of template_params (UsedTemplateParameters); CannotDerive::constrain_join (which members are joined); the initial_worklist functions (iterator chains); the loops around the dependency-recording callbacks (generate_dependencies, UsedTemplateParameters::new: that every allowlisted item is traced); the Trace impl of ObjCInterface; the getters the verified Trace impls read; completeness of the read-sets; termination; the declaration-order corollary"],
     }, extra_obs=extra)
 
@@ -325,11 +330,12 @@ def c08(tier, seed):
         return units_incrate.run_spec(units_incrate.derive_tables_spec())
     return _verus_prop("C08", tier, seed, [("derive_gate", None, None), ("derives", None, None), ("constrain", None, None), ("fn_abi", r"function_pointers_can_derive", None),
                                            # the float exclusion for Eq/Ord and the derive analysis' own subscriptions are C08 mechanisms too
-                                           ("edges", r"::(has_float_consider_edge|consider_edge_default)::", None), ("has_float", None, None), ("union_repr", r"::CompInfo::is_rust_union::", None)], {
+                                           ("edges", r"::(has_float_consider_edge|consider_edge_default)::", None), ("has_float", None, None), ("union_repr", r"::CompInfo::is_rust_union::", None), ("bitfield_limit", None, None)], {
         "trusted_base": INCRATE_TRUST + ["env/derive_gate_env.rs: uninterpreted options and analysis lookups; generic impl<T> instantiated at T = ItemId",
                                         "rule-table oracle written from the property statement (kani_incrate/derive_tables.rs)"],
         "functions_under_contract": ["bindgen/ir/context.rs: the eight impl<T> CanDerive{Debug,Default,Copy,Hash,PartialOrd,PartialEq,Eq,Ord} for T bodies",
                                      "bindgen/ir/analysis/derive.rs: CannotDerive::constrain_type (the whole per-type rule: blocklisted, excluded by name, opaque, simple kinds, pointers/fn pointers, arrays, vectors, compounds, type references, template instantiations) and DeriveTrait::{not_by_name, can_derive_*} (Verus unit constrain; member join = uninterpreted s_join)",
+                                     "bindgen/ir/comp.rs: CompInfo::has_too_large_bitfield_unit (unit bitfield_limit; Iterator::any desugared by rule R25): true exactly when SOME bit-field allocation unit is larger than the 32-element limit",
                                      "bindgen/ir/analysis/has_float.rs: HasFloat::{consider_edge, insert, constrain} (the 'floats for Eq/Ord' exclusion: the rule's fix-point equation and that every edge it reads along is subscribed; same obligations as under C07)",
                                      "bindgen/ir/analysis/derive.rs: CannotDerive::constrain (node rule = per-type rule, made Manually for Default when the type is aligned beyond the 32-element limit; non-type items join their members) and CannotDerive::insert",
                                      "bindgen/codegen/mod.rs: derives_of_item (packed-requires-Copy, annotation exclusions; DerivableTraits modelled as one bool per flag); the four needs_{debug,default,clone,partialeq}_impl decisions of CompInfo::codegen (statements, R18)",
@@ -343,12 +349,13 @@ def c08(tier, seed):
 
 
 def c09(tier, seed):
-    return _verus_prop("C09", tier, seed, [("edges", r"::(all_edges|only_inner_type_edges|codegen_edges)::", None), ("roots", None, None), ("blocklist", None, None), ("traversal", None, None), ("trace_impls", None, None)], {
+    return _verus_prop("C09", tier, seed, [("edges", r"::(all_edges|only_inner_type_edges|codegen_edges)::", None), ("roots", None, None), ("blocklist", None, None), ("traversal", None, None), ("trace_impls", None, None), ("prim_types", r"::(BindgenContext::is_stdint_type|type_from_named)::", None)], {
         "trusted_base": ["env/traversal_env.rs: TraversalStorage = set, TraversalQueue = bag (covers the LIFO Vec and the FIFO VecDeque), as Verus traits with specifications; the predicate fn pointer applied through an uninterpreted function; Trace impls call visit_kind once per outgoing edge of the item (trace_item = fold of visit_kind's own proved effect)",
                          "extraction rules R1-R11; env/edges_env.rs: uninterpreted CodegenConfig reads and Item::is_enabled_for_codegen; is_type_edge table from the Trace impls"],
         "functions_under_contract": ["bindgen/ir/traversal.rs: codegen_edges, only_inner_type_edges, all_edges",
                                      "bindgen/ir/traversal.rs: ItemTraversal::new, <ItemTraversal as Tracer>::visit_kind, <ItemTraversal as Iterator>::next, Edge::new (unit traversal, generic in Storage and Queue): representation invariant (roots seen; queue within seen; every item already taken out has all followed successors seen; everything seen is reachable) established by new and preserved by next; LEMMA lemma_exhausted: with the queue empty, seen == the set reachable from the roots along followed edges; LEMMA lemma_drain (a consumer over the contracts only): draining a fresh traversal yields exactly that set - closure AND minimality",
                                      "bindgen/ir/{ty,comp,template,function,item}.rs: the Trace impls of Type, CompInfo, CompFields, Field, TemplateInstantiation, FunctionSig, Item (unit trace_impls): every reference of these nodes is reported, once, with the documented edge kind",
+                                     "bindgen/ir/context.rs: BindgenContext::is_stdint_type (unit prim_types): the name-based cut-off of the traversal (Type::trace stops at these names, root selection auto-allowlists them) applies exactly to the names code generation maps to a primitive (utils::type_from_named), size_t/ssize_t only with size_t_is_usize - otherwise an emitted item names a type that was never reached",
                                      "bindgen/ir/context.rs: the root-selection predicate of compute_allowlisted_and_codegen_items (a closure, extracted by rule R18; the unnamed-enum variant loop is one uninterpreted accessor)",
                                      "bindgen/ir/item.rs: Item::is_blocklisted (an item matched by an allowlist and a blocklist is not emitted: the traversal skips blocklisted items)"],
         "assumptions": ["root selection: an item is a root exactly when nothing is allowlisted, or it replaces a type, or its file / the generic item list / the list of ITS kind matches its path (+ the documented auto-allowlisting of codeless types in no-recursive mode and of unnamed top-level enums by variant); regex matching and path joining uninterpreted",
